@@ -5,6 +5,7 @@ from .. import roles as R
 META = {
     "technique": "dominating branch-condition analysis + field write-site enumeration + who-may-call on MIR",
     "explanation": (
+        "R-C03.9: a memtable is sealed only after the journal buffer was written out under the same journal-lock hold (a sealed memtable can become a table at any time). "
         "Decides the structural conditions of batch atomicity: (1) framing — each append primitive writes exactly one Start "
         "(before all items) and one End (after all items), outside any loop, with item_count from the batch size (constant "
         "1 for single writes) and the caller's seqno; (2) the batch reader builds a Batch only in a block dominated by the "
